@@ -341,6 +341,11 @@ MUTATIONS += [
     dict(id="C03-packer-finalize-writer-error-ignored", prop="C03", file=PK, old="        self.file_writer.take().unwrap().finalize()?;\n\n        Ok(self.basic.take_stats())", new="        _ = self.file_writer.take().unwrap().finalize();\n\n        Ok(self.basic.take_stats())"),
 ]
 
+MUTATIONS += [
+    dict(id="C03-repairindex-replace-in-first-pass", prop="C03", file=RIXF, old="            (true, false) => changed_index_files.push((index_id, new_index)),", new="            (true, false) => {\n                be.remove(FileType::Index, &index_id, true)?;\n                changed_index_files.push((index_id, new_index));\n            }"),
+    dict(id="C03-repairindex-replace-before-finalize", prop="C03", file=RIXF, old="    indexer.write().unwrap().finalize()?;\n    p.finish();\n\n    // now that all re-read packs are indexed, replace the modified index files\n    for (index_id, new_index) in changed_index_files {\n        if !new_index.packs.is_empty() || !new_index.packs_to_delete.is_empty() {\n            _ = be.save_file(&new_index)?;\n        }\n        be.remove(FileType::Index, &index_id, true)?;\n    }\n", new="    // replace the modified index files\n    for (index_id, new_index) in changed_index_files {\n        if !new_index.packs.is_empty() || !new_index.packs_to_delete.is_empty() {\n            _ = be.save_file(&new_index)?;\n        }\n        be.remove(FileType::Index, &index_id, true)?;\n    }\n    indexer.write().unwrap().finalize()?;\n    p.finish();\n"),
+]
+
 HARMLESS = [
     dict(id="H-C05-trees-symlink-continue", prop="C05", file=CK, old="        for node in tree.nodes {\n            match node.node_type {", new="        for node in tree.nodes {\n            if node.node_type == NodeType::Symlink {\n                continue;\n            }\n            match node.node_type {"),
     # independent statements reordered
